@@ -5,4 +5,4 @@ import sys
 sys.path[:0] = ['/repo' + "/pulser-core", '/repo' + "/pulser-simulation", "/verif"]
 from symx.replay import replay
 sys.exit(replay(check='checks.c05', kernel='ham', shape={'program': 'two_glob'},
-                assignment={'a0': '1/2', 'd0': '-1/1024', 'a1': '1/2', 'd1': '-1/1024'}, label='ham:offdiag_other_global_channel_phase#7'))
+                assignment={'a0': '1/2', 'd0': '-1/1', 'a1': '1/2', 'd1': '-1/1'}, label='ham:offdiag_other_global_channel_phase#7'))
